@@ -28,7 +28,8 @@ RULE = ("matrix sequences: random sparse systems (n 1-400; same pattern new valu
         "checked or >= 3 configurations compared; distinct = (sequence seed | case).")
 ASSUMPTIONS = ["backward-error bound 1e-8*(|A||x|+|b|): UMFPACK/SuperLU reach 1e-16, KLU (threshold pivoting, no refinement) up to 1e-10 on non-dominant random matrices; a stale or wrong factorisation gives O(1)",
                "SciPy back-end: solve() is only required to use the matrix of the last refresh (documented caching)"]
-REQUIRED_OBS = {"solver_calls_checked": 300, "pattern_changes_without_refresh": 5, "singular_inputs": 10, "routine_configs_compared": 12, "fresh_process_pairs": 1}
+REQUIRED_OBS = {"solver_calls_checked": 300, "pattern_changes_without_refresh": 5, "singular_inputs": 10, "routine_configs_compared": 12, "fresh_process_pairs": 1,
+                "spectra_compared_between_backends": 6}
 
 LIBS = ["klu", "umfpack", "spsolve"]
 # backward-error bounds: UMFPACK / SuperLU pivot by magnitude (observed <= 3e-16); KLU keeps the diagonal pivot when it is
@@ -217,10 +218,10 @@ def run_one(case, rcsec, tf=1.5, eig=True):
         if not out["pf"]:
             return out
         out["V"] = np.concatenate([ss.Bus.v.v, ss.Bus.a.v])
-        if eig and ss.dae.n == 0:
-            eig = False
         ss.TDS.config.tf = tf
         out["tds"] = bool(ss.TDS.run())
+        if eig and ss.dae.n == 0:        # states are addressed at TDS.init: a static case has none
+            eig = False
         out["t"] = np.array(ss.dae.ts.t)
         out["x"] = np.array(ss.dae.ts.x)
         out["y"] = np.array(ss.dae.ts.y)
@@ -332,6 +333,7 @@ def run_routine(spec, res):
                 ri, ci = linear_sum_assignment(C)
                 rel = float(np.max(C[ri, ci] / (1.0 + np.abs(r["mu"][ci]))))
                 res.maxobs("max_spectrum_rel_difference", rel)
+                res.count("spectra_compared_between_backends")
                 if rel > 1e-6:
                     res.violate("spectrum_differs", "%s: eigenvalues under %s differ from %s by %.3e relative" % (spec["case"], tag, t0, rel), tag=tag)
     res.sig = "routine:" + spec["case"]
